@@ -2,12 +2,14 @@
 # usage: seed_run.sh <seed id>...   (all seeds when none given)
 # applies each seeded change to /repo, runs the quick check of every property it breaks, restores /repo,
 # and records rc and the first VIOLATION line in the seed's meta.json
-cd /verif
+cd "$(dirname "$0")/.."
+V=$(pwd)
+R=${VERIF_REPO:-/repo}
 [ $# -eq 0 ] && set -- $(ls seeded | grep '^S')
 for s in "$@"; do
   d=seeded/$s
-  git -C /repo diff --quiet || { echo "/repo is dirty"; exit 3; }
-  git -C /repo apply /verif/$d/patch.diff || { echo "$s: patch does not apply"; continue; }
+  git -C $R diff --quiet || { echo "/repo is dirty"; exit 3; }
+  git -C $R apply $V/$d/patch.diff || { echo "$s: patch does not apply"; continue; }
   for p in $(python3-vt -c "import json; print(' '.join(json.load(open('$d/meta.json'))['breaks']))"); do
     t0=$(date +%s); timeout 3000 ./check $p --tier quick > /tmp/seed_${s}_$p.log 2>&1; rc=$?
     line=$(grep -A1 '^VIOLATION' /tmp/seed_${s}_$p.log | grep -v '^VIOLATION\|^--' | head -1 | cut -c1-260)
@@ -20,6 +22,6 @@ json.dump(m, open(f, 'w'), indent=1)
 PY
     echo "$s $p rc=$rc ${line}"
   done
-  git -C /repo checkout -- .
+  git -C $R checkout -- .
 done
-git -C /verif checkout -- evidence 2>/dev/null
+git -C $V checkout -- evidence 2>/dev/null
